@@ -93,8 +93,7 @@ def rule_result(ctx, M, u, rule):
                         continue
                     base = comp[2][0][1]
                     # base must be the local swapped with self.outputs
-                    swaps = [s for s in bi.sites if s.key == ("core::mem::swap", "swap") and scan.self_field("outputs") in (s.arg(0), s.arg(1))
-                             and base in (s.arg(0), s.arg(1))]
+                    swaps = [t_ for t_ in flow.takes_of(bi, scan.self_field("outputs")) if t_.taken == base]
                     if len(swaps) != 1:
                         probs.append("result position %d does not come from self.outputs" % k)
         else:
@@ -117,12 +116,10 @@ def rule_take_util(ctx, M, rule):
         b = prims.find_method(M, owner, "take")
         ctx.require(b is not None, owner + "::take")
         bi = M.info(b)
-        swaps = [s for s in bi.sites if s.key == ("core::mem::swap", "swap")]
         data = ("field", ("param", 1), "data")
-        ok = len(swaps) == 1 and data in (swaps[0].arg(0), swaps[0].arg(1))
-        other = None
-        if ok:
-            other = swaps[0].arg(1) if swaps[0].arg(0) == data else swaps[0].arg(0)
+        swaps = flow.takes_of(bi, data)
+        ok = len(swaps) == 1
+        other = swaps[0].taken if ok else None
         rets = flow.returned_values(bi)
         good = False
         for blk, kind, payload, t in rets:
